@@ -132,13 +132,30 @@ def judge(ctx):
         pass
 
 
+def _ensure_weight(spec):
+    """construction instead of rejection: a leaf design without any weighted basic factor gets one weight (which level is
+    a pure function of the case, so the case stays reproducible and shrinkable)"""
+    b = spec["block"]
+    if b["type"] in ("cross", "multi") and not any(l[1] > 1 for f in spec["factors"] for l in f["levels"] if f["name"] in b["design"]):
+        cands = [f for f in spec["factors"] if f["name"] in b["design"]]
+        if cands:
+            h = S.hidx(0, [f["name"] for f in spec["factors"]] + [len(spec["derived"]), len(b.get("constraints", []))], 10 ** 6)
+            f = cands[h % len(cands)]
+            f["levels"][(h // 7) % len(f["levels"])][1] = 2 + (h // 49) % 2
+    return spec
+
+
+def _cases(c):
+    return G.mixed_spec(c).map(_ensure_weight)
+
+
 CFG = G.cfg(p_weight=0.6, max_weight=3, derived_weights=True, max_constraints=2, round_skeleton=True)
 P = D.DesignProperty(
     "C23", judge,
     rule=("case = generated design spec with at least one weighted basic factor and its copy-expanded twin; both are exhausted through the "
           "compiled formula; non-trivial = the weighted design has at least one sequence; classes: weighted crossed / uncrossed / both, "
           "weighted level referenced by a derived factor or constraint; distinct = distinct spec JSON"),
-    cfg_quick=CFG, n_quick=60, n_thorough=600, case_limit=(20, 120),
+    cfg_quick=CFG, n_quick=60, n_thorough=600, case_limit=(20, 120), strategy=_cases,
     limits={"max_T": {"quick": 7, "thorough": 9}, "max_models": {"quick": 2500, "thorough": 15000}, "max_seqs": {"quick": 600, "thorough": 4000}},
     assumptions=["the twin is a faithful expression of 'w separately named copies reported under the original name' (a within-trial factor reports the name)",
                  "weights on derived levels are outside this property's text and excluded"])
